@@ -58,6 +58,14 @@ class Check:
         self.notes = {}
         self.work = WORK / f"{pid}_{os.getpid()}"      # unique per run: concurrent runs of one check must not share scratch
         shutil.rmtree(self.work, ignore_errors=True)
+        # scratch of crashed earlier runs of this check (older than three hours) is removed
+        if WORK.exists():
+            for d in WORK.glob(f"{pid}_*"):
+                try:
+                    if time.time() - d.stat().st_mtime > 3 * 3600:
+                        shutil.rmtree(d, ignore_errors=True)
+                except OSError:
+                    pass
         self.work.mkdir(parents=True, exist_ok=True)
         self._known = [k for k in load_known() if k["property"] == pid and k.get("status", "open") == "open"]
         self._distinct = set()
